@@ -74,6 +74,23 @@ FINDINGS = [
         site="cdd/shared/docstring_parsers.py:_set_name_and_type (name.endswith('kwargs') special case meant for **kwargs)",
         example="{'some_kwargs': {'typ': 'int', 'doc': 'the value'}} -> typ 'Optional[dict]' (ReST; Google/NumPy for dict)",
     ),
+    dict(
+        id="C01-double-quote-in-string-default-not-escaped",
+        property="C01",
+        pattern=dict(check=RT, field="parse", observed="raises SyntaxError", emit_default_doc=True, quote_in_default=True),
+        what="a string default containing a double quote is emitted as \"say \"hi\"\" (quotes not escaped) and the parser raises SyntaxError reading it back",
+        site="cdd/shared/pure_utils.py:quote / cdd/shared/defaults_utils.py:set_default_doc, _parse_out_default_and_doc (literal_eval of the prose)",
+        example="{'alpha': {'typ': 'str', 'doc': 'the value', 'default': 'say \"hi\"'}}, any style, emit_default_doc=True",
+    ),
+    dict(
+        id="C01-string-default-cut-at-full-stop",
+        property="C01",
+        pattern=dict(check=RT, field={"in": ["parse", "default"]}, observed={"in": ["raises SyntaxError", "str"]}, emit_default_doc=True, dot_in_default=True),
+        what="a string default that contains a full stop not followed by a digit ('a.b') is cut at the dot when the prose is read back ('Defaults to \"a.b\"' -> '\"a'): "
+        "the value changes or the parser raises SyntaxError on the unterminated string",
+        site="cdd/shared/defaults_utils.py:extract_default (the scan stops at the first '.' that is not followed by a digit, without regard to quotes)",
+        example="{'alpha': {'typ': 'str', 'doc': 'the value', 'default': 'a.b'}}, any style, emit_default_doc=True",
+    ),
 ]
 FIXED = [
     "fixed: property=C01 5a0ba55 negative int default ('Defaults to -5') came back as float -5.0 unless the type was exactly 'int'",
